@@ -131,6 +131,7 @@ fn policy_from(v: &Value) -> Policy {
         "interrupt" => Policy::InterruptEach,
         "capinterrupt" => Policy::CapInterrupt(v["c"].as_u64().unwrap() as usize),
         "paged" => Policy::Paged(v["c"].as_u64().unwrap() as usize),
+        "burst" => Policy::InterruptBurst(v["c"].as_u64().unwrap() as usize),
         _ => Policy::Default,
     }
 }
@@ -142,6 +143,7 @@ fn policy_json(p: Policy) -> Value {
         Policy::InterruptEach => json!({"kind": "interrupt"}),
         Policy::CapInterrupt(c) => json!({"kind": "capinterrupt", "c": c}),
         Policy::Paged(c) => json!({"kind": "paged", "c": c}),
+        Policy::InterruptBurst(c) => json!({"kind": "burst", "c": c}),
     }
 }
 
@@ -249,7 +251,7 @@ pub fn replay(case: &Value) -> Result<String, String> {
 pub fn plan(tier: Tier) -> Plan {
     let mut p = Plan::new("C07", "model_checking");
     let thorough = tier.thorough();
-    p.rule = "for each input of a fixed list (empty set; only the empty key; one key; three keys with 5-byte values; a map using every node form; a 40-way fan-out whose 256-byte index goes through one write_all) the real builder runs over a scripted sink for EVERY answer sequence with <= d deviations (a deviation = any shorter non-empty acceptance of that call's buffer, or Err(Interrupted)); plus policy sinks deviating on every call (cap 1..16, Interrupted before every call, both, page-bounded writers), also on outputs of 12..70 KB, BufWriter capacities {1,2,3,8,64,8192} (with <= 1 deviation underneath; owned + into_inner, and borrowed + finish() of the raw, map and set builders) and Vecs pre-filled with {1,7,8,16,4096} bytes; oracle: sink bytes == in-memory build, bytes_written() == bytes accepted after every insert, result opens/verifies/has the model content. non-trivial = executions with at least one deviation".into();
+    p.rule = "for each input of a fixed list (empty set; only the empty key; one key; three keys with 5-byte values; a map using every node form; a 40-way fan-out whose 256-byte index goes through one write_all) the real builder runs over a scripted sink for EVERY answer sequence with <= d deviations (a deviation = any shorter non-empty acceptance of that call's buffer, or Err(Interrupted)); plus policy sinks deviating on every call (cap 1..16, Interrupted before every call, both, page-bounded writers, bursts of 2..300 consecutive Interrupted results before every accepted call), also on outputs of 12..70 KB, BufWriter capacities {1,2,3,8,64,8192} (with <= 1 deviation underneath; owned + into_inner, and borrowed + finish() of the raw, map and set builders) and Vecs pre-filled with {1,7,8,16,4096} bytes; oracle: sink bytes == in-memory build, bytes_written() == bytes accepted after every insert, result opens/verifies/has the model content. non-trivial = executions with at least one deviation".into();
     p.assumptions = vec!["the sink honours the io::Write contract (never reports more than it accepted)".into()];
     let shards = 16usize;
     for (name, kvs) in inputs() {
@@ -320,6 +322,7 @@ pub fn plan(tier: Tier) -> Plan {
             pols.push(Policy::CapInterrupt(1));
             pols.push(Policy::CapInterrupt(3));
             pols.extend([Policy::Paged(7), Policy::Paged(64), Policy::Paged(512), Policy::Paged(4096), Policy::Paged(8192)]);
+            pols.extend([Policy::InterruptBurst(2), Policy::InterruptBurst(15), Policy::InterruptBurst(16), Policy::InterruptBurst(17), Policy::InterruptBurst(100), Policy::InterruptBurst(300)]);
             for pol in pols {
                 st.evals += 1;
                 st.states += 1;
